@@ -64,7 +64,7 @@ func TestC29(t *testing.T) {
 	r := mc.NewRun(t, "C29", mc.Exploration)
 	r.Rule = "topology family (netsim.CombFamily, real beaconing along all loop-free walks) x segment-set variants (one generation; two generations in " +
 		"both supply orders; newer generation expiring earlier through one AS; older generation lacking the last peering link; segments of all ASes " +
-		"supplied) x all ordered AS pairs x supplied subsets (everything; without cores; every single up / single down / (up,down) pair with all, " +
+		"supplied; detachable EPIC extension on all ASes / every second AS / each single AS / one of two generations) x all ordered AS pairs x supplied subsets (everything; without cores; every single up / single down / (up,down) pair with all, " +
 		"none and each single core segment) x findAllIdentical {false,true} x every join found by the clean-room enumerator; distinct key = " +
 		"variant + pair + subset + mode + join (segments, cut points, peering entry); non-trivial = joins that are not excluded as loops"
 	thorough := mc.Thorough()
@@ -76,7 +76,7 @@ func TestC29(t *testing.T) {
 		for ti, tp := range topos {
 			for _, v := range c28Variants(tp, thorough) {
 				// MTU-only perturbations do not change which joins exist
-				if !(strings.HasPrefix(v.Name, "base") || strings.HasPrefix(v.Name, "2gen")) {
+				if !(strings.HasPrefix(v.Name, "base") || strings.HasPrefix(v.Name, "2gen") || strings.HasPrefix(v.Name, "epic")) {
 					continue
 				}
 				if r.OutOfBudget() {
@@ -92,7 +92,7 @@ func TestC29(t *testing.T) {
 				nSets++
 				// subsets are enumerated on one-generation sets and on the plain two-generation sets; the remaining variants
 				// are checked with everything supplied
-				subsets := v.Name == "base" || v.Name == "2gen/old-first" || v.Name == "2gen/old-lacks-last-peering-link"
+				subsets := v.Name == "base" || v.Name == "2gen/old-first" || v.Name == "2gen/old-lacks-last-peering-link" || v.Name == "epic:all"
 				for src := range tp.ASes {
 					for dst := range tp.ASes {
 						if src == dst {
@@ -145,7 +145,14 @@ func c29Check(r *mc.Run, vname string, srcIA, dstIA addr.IA, sup c29Supply, nCom
 		det := map[string]any{"variant": vname, "src": srcIA.String(), "dst": dstIA.String(), "findAllIdentical": all, "supplied": sup.name,
 			"segments_supplied": fmt.Sprintf("%d up, %d core, %d down", len(sup.ups), len(sup.cores), len(sup.downs))}
 		if pn := mc.Safely(func() { paths = combinator.Combine(srcIA, dstIA, sup.ups, sup.cores, sup.downs, all) }); pn != nil {
-			det["panic"] = pn
+			// nothing is returned for this pair: every required join is lost
+			lost := 0
+			for i := range cands {
+				if c28MaxPerAS(cands[i].Ifaces) <= 2 {
+					lost++
+				}
+			}
+			det["panic"], det["required_joins_lost"] = pn, lost
 			r.Violation("combine-panics-on-beacon-built-segments", det)
 			continue
 		}
